@@ -332,8 +332,27 @@ def run(pid, tier, queries, scratch, logdir, known):
             json.dump(q.spec(mir, src), f)
         jobs.append((q, sp, op))
 
-    def work(job):
+    def mem_avail_gb():
+        try:
+            for ln in open("/proc/meminfo"):
+                if ln.startswith("MemAvailable:"):
+                    return int(ln.split()[1]) / 1048576.0
+        except Exception:
+            pass
+        return 1e9
+
+    def work(job, gate=True):
         q, sp, op = job
+        # memory gate: a worker can grow to its 16 GB limit; do not start one while less than that is available
+        # (the kernel OOM killer otherwise picks a victim, which is reported as inconclusive, never as a pass)
+        waited = 0
+        while gate and mem_avail_gb() < 18 and waited < 3600:
+            time.sleep(15)
+            waited += 15
+        try:
+            os.remove(op)
+        except OSError:
+            pass
         shell = "ulimit -v %d; exec timeout -k 10 %d %s -m mirsmt.worker %s %s" % (16 * 1024 * 1024, 4 * q.timeout + 300, PY, sp, op)
         t0 = time.time()
         p = subprocess.run(["bash", "-c", shell], cwd=C.VERIF, env=C.base_env(), stdout=subprocess.PIPE, stderr=subprocess.STDOUT, text=True)
@@ -354,6 +373,15 @@ def run(pid, tier, queries, scratch, logdir, known):
             r = results[q.name]
             C.log("[M] %-44s %-10s %6.0fs %s" % (q.name, r.get("verdict", r.get("error", "?"))[:10], r["wall"],
                                                " ".join("%s=%s" % (k, r.get(k)) for k in ("bound_ok", "reach_finish", "reach_interference") if k in r)))
+    # a worker killed from outside (kernel OOM killer under memory pressure from its siblings) is retried once, alone
+    for j in jobs:
+        r = results[j[0].name]
+        if "error" in r and "worker died (rc=-9)" in r["error"]:
+            C.log("[M] %s: killed (memory pressure); retrying alone" % j[0].name)
+            r2 = work(j, gate=False)
+            r2["wall"] += r["wall"]
+            results[j[0].name] = r2
+            C.log("[M] %-44s %-10s %6.0fs (retry)" % (j[0].name, r2.get("verdict", r2.get("error", "?"))[:10], r2["wall"]))
     binary = None
     funcs = set()
     rerun = []
